@@ -579,6 +579,137 @@ class _AttrToLocal(ast.NodeTransformer):
         return node
 
 
+def _structure_returns(stmts):
+    """Generator body with bare `return`s made structured: `if c: A; return` followed by R  ->  `if c: A else: R`.
+    None when a return sits anywhere else."""
+    out = []
+    for i, s in enumerate(stmts):
+        if isinstance(s, ast.Return):
+            return out if s.value is None and i == len(stmts) - 1 else None
+        if isinstance(s, ast.If) and any(isinstance(x, ast.Return) for x in ast.walk(s)):
+            body, orelse = _structure_returns(s.body), _structure_returns(s.orelse) if s.orelse else []
+            if body is None or orelse is None:
+                return None
+            b_ret = bool(s.body) and isinstance(s.body[-1], ast.Return)
+            e_ret = bool(s.orelse) and isinstance(s.orelse[-1], ast.Return)
+            rest = _structure_returns(stmts[i + 1:])
+            if rest is None:
+                return None
+            if b_ret and not e_ret:
+                orelse = orelse + rest
+            elif e_ret and not b_ret:
+                body = body + rest
+            elif b_ret and e_ret:
+                pass
+            else:
+                return None
+            out.append(ast.copy_location(ast.If(test=s.test, body=body or [ast.Pass()], orelse=orelse), s))
+            return out
+        if any(isinstance(x, ast.Return) for x in ast.walk(s) if not isinstance(s, (ast.FunctionDef, ast.ClassDef))):
+            return None
+        out.append(s)
+    return out
+
+
+def expand_generator_loops(m, fi):
+    """`for X in g(args): B` where g is a generator that is not part of the reference tree and has SEVERAL yield sites (one loop
+    for the sequential case, one for the concurrent case ...; N8 only handles a single site): every `yield e` of g becomes
+    `X = e; B` in place, g's early `return` becomes if/else.  Sound because B neither breaks nor continues and the consumer
+    runs exactly once per yielded value, in yield order.  Returns (FuncInfo, notes)."""
+    from ..inline import Inliner, NotInlinable
+    from ..model import FuncInfo
+    from ..normalize import canonicalise
+    notes = []
+    if fi.cls is not None or fi.module.kind != 'py':
+        return fi, notes
+    known = known_symbols()
+    host = copy.deepcopy(fi.node)
+    helpers, extra, done = {}, {}, 0
+    hostns = set(fi.module.imports) | set(fi.module.functions) | set(fi.module.classes) | set(fi.module.assigns)
+    pm = {c: p for p in ast.walk(host) for c in ast.iter_child_nodes(p)}
+    todo = []
+    for loop in [x for x in ast.walk(host) if isinstance(x, ast.For) and isinstance(x.iter, ast.Call)]:
+        q = m.resolve_call(fi, loop.iter)
+        h = m.functions.get(q) if q else None
+        if h is None or q in known or h.cls is not None or h.module.kind != 'py' or h.decorators:
+            continue
+        if not any(isinstance(n, ast.Yield) for n in ast.walk(h.node)):
+            continue
+        why = None
+        if any(isinstance(n, ast.YieldFrom) for n in ast.walk(h.node)) or any(isinstance(n, ast.Yield) and not isinstance(pm_get(h.node, n), ast.Expr) for n in ast.walk(h.node)):
+            why = f'generator {h.name} uses yield from / the value of a yield expression'
+        elif loop.orelse or any(isinstance(n, (ast.Break, ast.Continue, ast.Return, ast.Yield, ast.YieldFrom)) for b in loop.body for n in ast.walk(b)):
+            why = f'the loop over generator {h.name} breaks / continues / returns'
+        elif h.module is not fi.module:
+            bound = {x.arg for x in h.node.args.posonlyargs + h.node.args.args + h.node.args.kwonlyargs} | {n.id for n in ast.walk(h.node) if isinstance(n, ast.Name) and isinstance(n.ctx, ast.Store)}
+            for n in ast.walk(h.node):
+                if isinstance(n, ast.Name) and isinstance(n.ctx, ast.Load) and n.id not in bound:
+                    r = m.resolve(h.module, n)
+                    if r is not None and (n.id in hostns and m.resolve(fi.module, n) != r or extra.get(n.id, r) != r):
+                        why = f'generator {h.name} of another module uses the name {n.id} with another meaning'
+                    elif r is not None:
+                        extra[n.id] = r
+        if why is not None:
+            notes.append(why)
+            continue
+        todo.append((loop, h))
+    if not todo:
+        return fi, notes
+    tree = ast.Module(body=[copy.deepcopy(h.node) for _, h in todo] + [host], type_ignores=[])
+    inl = Inliner(tree, fi.module.name, known | {fi.qualname})
+    inl._host_locals = set()
+    inl._host_load_counts = {}
+    host_names = {n.id for n in ast.walk(host) if isinstance(n, ast.Name)} | {a.arg for a in host.args.posonlyargs + host.args.args + host.args.kwonlyargs}
+    for (loop, h), hd in zip(todo, tree.body):
+        helper = next((x for x in inl.helpers.values() if x.node is hd), None)
+        if helper is None:
+            notes.append(f'generator {h.name} cannot be expanded (decorated / variadic)')
+            continue
+        try:
+            pre, body = inl.instantiate(helper, loop.iter, None, host_names)
+        except NotInlinable as e:
+            notes.append(f'generator {h.name} cannot be expanded ({e})')
+            continue
+        body = _structure_returns(body)
+        if body is None:
+            notes.append(f'generator {h.name} returns from inside a loop / try')
+            continue
+
+        class Y(ast.NodeTransformer):
+            def visit_Expr(self, node):
+                if isinstance(node.value, ast.Yield):
+                    v = node.value.value if node.value.value is not None else ast.Constant(value=None)
+                    return [ast.copy_location(ast.Assign(targets=[copy.deepcopy(loop.target)], value=v), node)] + copy.deepcopy(loop.body)
+                return node
+
+            def visit_FunctionDef(self, node):
+                return node
+
+            visit_Lambda = visit_ClassDef = visit_FunctionDef
+        new = []
+        for s in pre + body:
+            r = Y().visit(s)
+            new += r if isinstance(r, list) else [r]
+        _replace_child_list(pm[loop], loop, new)
+        done += 1
+    if not done:
+        return fi, notes
+    ast.fix_missing_locations(host)
+    mod = fi.module
+    if extra:
+        mod = copy.copy(fi.module)
+        mod.imports = {**{k: v for k, v in extra.items() if k not in hostns}, **fi.module.imports}
+    node = canonicalise(ast.Module(body=[host], type_ignores=[])).body[0]
+    return FuncInfo(fi.qualname, node, mod, None), notes
+
+
+def _replace_child_list(parent, old, new):
+    for f, v in ast.iter_fields(parent):
+        if isinstance(v, list) and any(x is old for x in v):
+            i = next(k for k, x in enumerate(v) if x is old)
+            v[i:i + 1] = new
+
+
 def returning(paths):
     return [p for p in paths if p.end[0] == 'return']
 
@@ -1172,6 +1303,11 @@ def check(ctx):
                 stmt=f'cross[{chr(ch)}]')
     check_compression(ctx)
     check_parse(ctx)
+    # "depends only on its biological content": the accumulator a file is searched into holds nothing but that file's k-mers -
+    # its state belongs to the instance, starts empty, records exactly what is added and is reported sorted and duplicate-free
+    # (C01-K7 re-evaluated under this property; last, so that an accumulator K7 cannot read does not hide the rules above)
+    rep.rule('K7', 'C01-K7 re-evaluated: accumulator state is per instance and starts empty; add records its argument; signature sorted, duplicate-free, index_dtype(k); default_accumulator returns one of them')
+    c01.analyse_accumulators(ctx)
 
 
 from ..variants import V  # noqa: E402
